@@ -1,6 +1,6 @@
 (* Proofs/CodecWorld.v — the text round trip of Proofs/CodecTextP.v applies to the UID list of every
    mailbox of every reachable world of Model/Mbox.v (C12, C02). *)
-From Asimap Require Import Base.Res Spec.SetSem Model.Mbox Model.Codec Model.CodecText Proofs.CodecTextP Proofs.MboxInv Proofs.MboxUid.
+From Asimap Require Import Base.Res Spec.SetSem Model.Mbox Model.Codec Model.CodecText Proofs.CodecTextP Proofs.MboxInv Proofs.MboxUid Proofs.MboxKeys.
 From Coq Require Import Sorting.Sorted Lia ZArith List.
 Open Scope Z_scope.
 
@@ -10,4 +10,13 @@ Theorem reachable_uid_lists_persist ps pn pd ops n b :
 Proof.
   intros H. destruct (reachable_uinv ps pn pd ops n b H) as [Hs [Hr _]].
   apply expand_compact_text; [exact Hs|]. eapply Forall_impl; [|exact Hr]. intros u Hu. cbv beta in Hu. lia.
+Qed.
+
+(* the same for the message-key column (msg_keys), by the key invariant of Proofs/MboxKeys.v *)
+Theorem reachable_key_lists_persist ps pn pd ops n b :
+  get_box (fst (run (init_world ps pn pd) ops)) n = Some b ->
+  expand_text (compact_text (map m_key (b_msgs b))) = Some (map m_key (b_msgs b)).
+Proof.
+  intros H. destruct (reachable_keys_ascending ps pn pd ops n b H) as [Hs Hp].
+  apply expand_compact_text; assumption.
 Qed.
